@@ -73,7 +73,8 @@ def tunnel_encaps(rng):
 def srte_update(rng):
     six = False
     v14 = {'afi_safi': [1, 73], 'nexthop': gen.ipv4(rng, 'rand'),
-           'nlri': {'distinguisher': rng.choice(gen.U32), 'color': rng.choice(gen.U32), 'endpoint': gen.ipv4(rng)}}
+           'nlri': {'distinguisher': rng.choice(gen.U32), 'color': rng.choice(gen.U32),
+                    'endpoint': gen.ipv4(rng) if rng.random() < 0.7 else gen.ipv6(rng, rng.choice(['doc', 'rand', 'zero']))}}
     return {'attr': {1: 0, 2: [], 5: 100, 8: ['NO_ADVERTISE'], 14: v14, 16: [[779, rng.choice(gen.U16)]], 23: tunnel_encaps(rng)}}
 
 
